@@ -56,6 +56,10 @@ Theorem C11_source_lev_max_returns : forall (hamming levenshtein : str -> str ->
 Proof. intros. apply gen_cal_levenshtein_limit. Qed.
 Print Assumptions C11_source_lev_max_returns.
 
+(* _to_triplets hands a query to the custom-distance worker exactly when custom_distance is a callable (None and 'hamming' go to the rapidfuzz worker) *)
+Theorem C11_source_worker_choice : gen_worker_is_custom = (false, false, true).
+Proof. reflexivity. Qed.
+
 (* non-vacuity: rational distances with Qle_bool are such an order, and the regenerated worker computes *)
 Lemma Qle_bool_total a b : Qle_bool a b = true \/ Qle_bool b a = true.
 Proof. rewrite !Qle_bool_iff. destruct (Qlt_le_dec b a) as [H|H]; [right; apply Qlt_le_weak, H|left; exact H]. Qed.
